@@ -1320,3 +1320,101 @@ func resultTuples(r *ssa.Return) [][]valAt {
 	}
 	return out
 }
+
+// reachAvoidingCorr is reachAvoidingF made sensitive to repeated tests of the same SSA value: once
+// a path has taken an outcome of `if v`, a later `if v` (or `if !v`) on the same immutable SSA value
+// can only take the consistent outcome. This removes the infeasible paths of the idiom
+// `if ok { A }; ...; if ok { B }`.
+func reachAvoidingCorr(start ssa.Instruction, inclusive bool, skip map[*ssa.BasicBlock]int, target, barrier func(ssa.Instruction) bool) ssa.Instruction {
+	type state struct {
+		b   *ssa.BasicBlock
+		key string
+	}
+	condOfBlock := func(b *ssa.BasicBlock) (ssa.Value, bool, bool) { // value, negated, ok
+		iff, ok := condOf(b)
+		if !ok {
+			return nil, false, false
+		}
+		v := iff.Cond
+		neg := false
+		for {
+			if u, isU := v.(*ssa.UnOp); isU && u.Op == token.NOT {
+				neg = !neg
+				v = u.X
+				continue
+			}
+			break
+		}
+		return v, neg, true
+	}
+	seen := map[state]bool{}
+	var found ssa.Instruction
+	var run func(b *ssa.BasicBlock, i int, outcomes map[ssa.Value]bool)
+	keyOf := func(m map[ssa.Value]bool) string {
+		var ks []string
+		for v, o := range m {
+			ks = append(ks, fmt.Sprintf("%s=%v", v.Name(), o))
+		}
+		sortStrings(ks)
+		return strings.Join(ks, ",")
+	}
+	run = func(b *ssa.BasicBlock, i int, outcomes map[ssa.Value]bool) {
+		if found != nil {
+			return
+		}
+		for ; i < len(b.Instrs); i++ {
+			in := b.Instrs[i]
+			if barrier != nil && barrier(in) {
+				return
+			}
+			if target(in) {
+				found = in
+				return
+			}
+		}
+		v, neg, isIf := condOfBlock(b)
+		for si, s := range b.Succs {
+			if idx, ok := skip[b]; ok && idx == si {
+				continue
+			}
+			next := outcomes
+			if isIf && len(b.Succs) == 2 {
+				taken := si == 0 // true edge
+				if neg {
+					taken = !taken
+				}
+				if prev, known := outcomes[v]; known {
+					if prev != taken {
+						continue // contradicts an earlier test of the same value
+					}
+				} else {
+					next = map[ssa.Value]bool{}
+					for k, o := range outcomes {
+						next[k] = o
+					}
+					next[v] = taken
+				}
+			}
+			st := state{s, keyOf(next)}
+			if seen[st] {
+				continue
+			}
+			seen[st] = true
+			run(s, 0, next)
+		}
+	}
+	i := instrIndex(start)
+	if !inclusive {
+		i++
+	}
+	run(start.Block(), i, map[ssa.Value]bool{})
+	return found
+}
+
+func sortStrings(s []string) {
+	for i := 1; i < len(s); i++ {
+		for j := i; j > 0 && s[j] < s[j-1]; j-- {
+			s[j], s[j-1] = s[j-1], s[j]
+		}
+	}
+}
